@@ -15,7 +15,7 @@ def run(tier):
         cfgs = [x for x in cfgs if not x.endswith("_2.cfg")]
     vlib.run_parallel([(lambda cf: (lambda: c.mc("Subprocess", "MC_Subprocess", cf, workers=2, timeout=900)))(cf)
                        for cf in cfgs], jobs=8)
-    for leg in ("MC_SP_legacy_nodrain.cfg", "MC_SP_legacy_leak.cfg", "MC_SP_legacy_comm_nodrain.cfg", "MC_SP_legacy_noescalate.cfg", "MC_SP_legacy_dtorterm.cfg"):
+    for leg in ("MC_SP_legacy_nodrain.cfg", "MC_SP_legacy_leak.cfg", "MC_SP_legacy_comm_nodrain.cfg", "MC_SP_legacy_noescalate.cfg", "MC_SP_legacy_dtorterm.cfg", "MC_SP_legacy_assignleak.cfg"):
         c.mc("Subprocess", "MC_Subprocess", leg, workers=2, timeout=600, expect_fail=True)
     nsh = 16
     traces = c.drive(exes["drv_subprocess"], [["@OUT", tier, vlib.SEED, exes["verif_child"], i, nsh] for i in range(nsh)],
